@@ -7,4 +7,10 @@ CHECKS = {
  "C01": dict(level="exploration", technique="reference-model monitor (independent evaluator) over an exhaustive operator x type x provenance table and random nestings",
    text="Every cell of the operator x operand-type x provenance table (33 representative values, 4 provenances) and 6k/300k random nestings are executed by the real engine and compared (error-or-(type, printed form)) with an independent reference evaluator; held on the executions observed.",
    note="Trusted: the reference model's reading of the property statement; don't-care zones (DESIGN 1.1) are skipped and counted, not judged. Says nothing about values/nestings outside the generated set.", design_ref="DESIGN.md 4/C01"),
+ "C02": dict(level="exploration", technique="reference-model monitor over generated structured programs, all truth assignments of the condition fields, trace host function with unique ids",
+   text="500/20k random structured programs (every control-flow construct, nesting up to 5) are each run under all 2^k truth assignments of their condition fields (truthy/falsy values of several types); result, host-call trace and variables left are compared with an independent reference interpreter; plus fixed regression programs.",
+   note="Trusted: reference model; generator keeps value-yielding expression statements out of foreach bodies (known finding foreach-residue, probed separately). Holds only for the programs generated.", design_ref="DESIGN.md 4/C02"),
+ "C06": dict(level="exploration", technique="reference-model monitor with lexical frames + scope-depth invariant hook at quiescent points",
+   text="1.2k/100k random programs with 1-4 user functions (name clashes, recursion, returns from inside loops) run under all truth assignments; result/trace/variables compared with a lexical-frame model; open-scope count (hook) must be unchanged by every run; 12 fixed clause-by-clause regression programs.",
+   note="Trusted: reference model; programs in which a callee touches a live caller's local are don't-care and skipped (counted in evidence).", design_ref="DESIGN.md 4/C06"),
 }
